@@ -5,13 +5,17 @@
 //	DropIndex, RenameIndex, the index scan, addRowToIndexes and sortSecondaryIndexes; the
 //	renumbering comparisons of deleteRowFromIndexes; the relocation done by
 //	partitionssort.Swap; the dangling-location guard of indexScanRowIter; the order of
-//	ApplyEdits; what truncate resets (go/ast).
+//	ApplyEdits; what truncate resets; which functions write secondaryIndexStorage; who calls
+//	columnsMatch with prefix lengths; that a storage row is built without them (go/ast).
 //
 // run:     (a) histories of editor-level statements (Insert / Update / Delete / IndexedAccess calls
 //
 //	through the real TableEditorIter + tableEditor), TRUNCATE, CREATE [UNIQUE] INDEX on
 //	existing data and DROP INDEX (through Engine.Query) on partitioned tables with
-//	secondary, unique and multi-column indexes; after every step partitions and
+//	secondary, unique and multi-column indexes; one third of the tables have VARCHAR
+//	columns under PREFIX indexes (`KEY (s(3))`, `(w, s(2))`) and their statements rewrite
+//	rows under their own key (Update; Delete+Insert as REPLACE does) with the indexed string
+//	changed behind the prefix, inside it, or to a value shorter than it; after every step partitions and
 //	secondaryIndexStorage are dumped and compared with the Impl model; model-free oracle:
 //	every index holds exactly one storage row per stored row, pointing at it, storage is
 //	sorted, and every index-driven SQL read (equality on each key present, NULL, ranges,
@@ -330,6 +334,19 @@ func extract(a hx.ExtractArgs) error {
 			return err
 		}
 	}
+	if err := need("storageWriters", storageWriters(te, td, tb, ix)); err != nil {
+		return err
+	}
+	if err := need("prefixCompareUsers", prefixCompareUsers(te, td, tb, ix)); err != nil {
+		return err
+	}
+	refs, err := storedKeyPrefixRefs(ix)
+	if err != nil {
+		return err
+	}
+	if err := need("storedKeyPrefixRefs", refs); err != nil {
+		return err
+	}
 	return lf.Write(a.Out)
 }
 
@@ -362,6 +379,9 @@ func (s step) Sexp() string {
 		if s.d.Unique {
 			u = "1"
 		}
+		if s.d.HasPrefix() {
+			return hx.List("mkidx", ints(s.d.Cols), u, s.d.PrefixSexp())
+		}
 		return hx.List("mkidx", ints(s.d.Cols), u)
 	}
 	return hx.List("rmidx", strconv.Itoa(s.j))
@@ -376,6 +396,70 @@ func payload(env mi.Env, tb *mi.Table, steps []step) string {
 		items = append(items, s.Sexp())
 	}
 	return p[:i] + " " + hx.List(items...)
+}
+
+// lit renders a value as an SQL literal (strings are over [a-c]).
+func lit(v mi.Val) string {
+	switch {
+	case v.Null:
+		return "NULL"
+	case v.IsStr:
+		return "'" + v.S + "'"
+	}
+	return strconv.FormatInt(v.I, 10)
+}
+
+// withPrefixes gives the string columns of an index a prefix length (mostly), and keeps unique
+// indexes off string columns (unique checks over prefixes belong to C14).
+func withPrefixes(r *hx.Rand, env mi.Env, d mi.IdxDef) mi.IdxDef {
+	d.Prefix = make([]int, len(d.Cols))
+	for j, c := range d.Cols {
+		if env.IsStr(c) {
+			d.Unique = false
+			if r.Chance(4, 5) {
+				d.Prefix[j] = r.Range(1, 4)
+			}
+		}
+	}
+	if !d.HasPrefix() {
+		d.Prefix = nil
+	}
+	return d
+}
+
+// genStrEnv: a keyed (mostly) table with BIGINT key columns, at least one VARCHAR column and
+// indexes over the string columns, most of them prefix indexes (`KEY (s(3))`, `(w, s(2))`).
+func genStrEnv(r *hx.Rand) mi.Env {
+	n := r.Range(3, 4)
+	e := mi.Env{NCols: n, NParts: r.Range(1, 3), Str: make([]bool, n)}
+	if !r.Chance(1, 8) {
+		e.PK = []int{r.Intn(n)}
+	}
+	var strs []int
+	for c := 0; c < n; c++ {
+		if !e.IsPK(c) && (len(strs) == 0 || r.Chance(1, 2)) {
+			e.Str[c] = true
+			strs = append(strs, c)
+		}
+	}
+	ni := r.Range(1, 2)
+	for i := 0; i < ni; i++ {
+		s := hx.Pick(r, strs)
+		d := mi.IdxDef{Cols: []int{s}}
+		if r.Chance(1, 2) { // multi-column: (w, s(k)) or (s(k), w)
+			b := r.Intn(n - 1)
+			if b >= s {
+				b++
+			}
+			if r.Chance(1, 2) {
+				d.Cols = []int{b, s}
+			} else {
+				d.Cols = []int{s, b}
+			}
+		}
+		e.Idx = append(e.Idx, withPrefixes(r, e, d))
+	}
+	return e
 }
 
 func lessVal(a, b mi.Val) bool { // NULL first
@@ -423,7 +507,7 @@ func sqlReads(tb *mi.Table, env mi.Env, rows []mi.Row, out *hx.Out) []string {
 					row[j] = m.Null
 				} else {
 					n, err := strconv.ParseInt(c, 10, 64)
-					if err != nil {
+					if err != nil || env.IsStr(j) {
 						row[j] = m.Str(c)
 					} else {
 						row[j] = m.Int(n)
@@ -445,26 +529,36 @@ func sqlReads(tb *mi.Table, env mi.Env, rows []mi.Row, out *hx.Out) []string {
 	sel := "SELECT " + strings.Join(cols, ", ") + " FROM " + tb.Name
 	for _, d := range env.Idx {
 		c0 := d.Cols[0]
-		seen := map[int64]bool{}
+		str0 := env.IsStr(c0)
+		seen := map[mi.Val]bool{}
 		for _, r := range rows {
 			v := r[c0]
-			if v.Null || seen[v.I] {
+			if v.Null || seen[v] {
 				continue
 			}
-			seen[v.I] = true
-			val := v.I
-			check(fmt.Sprintf("%s WHERE %s = %d", sel, cols[c0], val), func(r mi.Row) bool { return !r[c0].Null && r[c0].I == val })
+			seen[v] = true
+			val := v
+			check(fmt.Sprintf("%s WHERE %s = %s", sel, cols[c0], lit(val)), func(r mi.Row) bool { return r[c0] == val })
 			if len(d.Cols) > 1 {
 				c1 := d.Cols[1]
 				if w := r[c1]; !w.Null {
-					wv := w.I
-					check(fmt.Sprintf("%s WHERE %s = %d AND %s = %d", sel, cols[c0], val, cols[c1], wv),
-						func(r mi.Row) bool { return !r[c0].Null && r[c0].I == val && !r[c1].Null && r[c1].I == wv })
+					wv := w
+					check(fmt.Sprintf("%s WHERE %s = %s AND %s = %s", sel, cols[c0], lit(val), cols[c1], lit(wv)),
+						func(r mi.Row) bool { return r[c0] == val && r[c1] == wv })
 				}
 			}
 		}
-		check(fmt.Sprintf("%s WHERE %s = 77", sel, cols[c0]), func(r mi.Row) bool { return false })
 		check(fmt.Sprintf("%s WHERE %s IS NULL", sel, cols[c0]), func(r mi.Row) bool { return r[c0].Null })
+		if str0 {
+			// values that were stored earlier in the history and are gone (a stale storage row would bring
+			// one back) and values that are stored now are both among the short strings
+			check(fmt.Sprintf("%s WHERE %s = 'zz'", sel, cols[c0]), func(r mi.Row) bool { return false })
+			check(fmt.Sprintf("%s WHERE %s >= 'ab' AND %s < 'b'", sel, cols[c0], cols[c0]), func(r mi.Row) bool { return !r[c0].Null && r[c0].S >= "ab" && r[c0].S < "b" })
+			check(fmt.Sprintf("%s WHERE %s > 'b'", sel, cols[c0]), func(r mi.Row) bool { return !r[c0].Null && r[c0].S > "b" })
+			check(fmt.Sprintf("%s WHERE %s <= 'abc'", sel, cols[c0]), func(r mi.Row) bool { return !r[c0].Null && r[c0].S <= "abc" })
+			continue
+		}
+		check(fmt.Sprintf("%s WHERE %s = 77", sel, cols[c0]), func(r mi.Row) bool { return false })
 		check(fmt.Sprintf("%s WHERE %s >= 2 AND %s < 5", sel, cols[c0], cols[c0]), func(r mi.Row) bool { return !r[c0].Null && r[c0].I >= 2 && r[c0].I < 5 })
 		check(fmt.Sprintf("%s WHERE %s > 3", sel, cols[c0]), func(r mi.Row) bool { return !r[c0].Null && r[c0].I > 3 })
 	}
@@ -516,12 +610,12 @@ func runCase(e *eng.Eng, cr *hx.Rand, out *hx.Out, env0 mi.Env, script []step, n
 	env.Idx = append([]mi.IdxDef(nil), env0.Idx...)
 	names := env.IndexNames()
 	nextName := len(names)
-	g := &mi.Gen{R: cr, Env: env}
+	g := &mi.Gen{R: cr, Env: env, Replace: 12}
 	before, err := tb.DumpNow()
 	if err != nil {
 		return tb, env0, hr, err
 	}
-	deleted, relocated := false, false
+	deleted, relocated, behind := false, false, false
 	for i := 0; i < nsteps; i++ {
 		cur := before.Rows()
 		var s step
@@ -596,6 +690,10 @@ func runCase(e *eng.Eng, cr *hx.Rand, out *hx.Out, env0 mi.Env, script []step, n
 					if o.Kind == "d" || o.Kind == "u" {
 						deleted = true
 					}
+					if o.Kind == "u" && !env.Keyless() && mi.SamePK(env, o.R, o.N) && behindPrefix(env, o.R, o.N) {
+						out.Stat("op:update-behind-indexed-prefix")
+						behind = true
+					}
 				}
 				if !env.Keyless() && len(cur) > 0 {
 					relocated = true
@@ -610,15 +708,11 @@ func runCase(e *eng.Eng, cr *hx.Rand, out *hx.Out, env0 mi.Env, script []step, n
 				q = "TRUNCATE TABLE " + tb.Name
 				expRows = nil
 			case "mkidx":
-				var cs []string
-				for _, c := range s.d.Cols {
-					cs = append(cs, "c"+strconv.Itoa(c))
-				}
 				u := ""
 				if s.d.Unique {
 					u = "UNIQUE "
 				}
-				q = fmt.Sprintf("CREATE %sINDEX %s ON %s (%s)", u, mi.IdxName(nextName), tb.Name, strings.Join(cs, ", "))
+				q = fmt.Sprintf("CREATE %sINDEX %s ON %s (%s)", u, mi.IdxName(nextName), tb.Name, s.d.ColList())
 			case "rmidx":
 				if s.j < 0 || s.j >= len(names) {
 					return tb, env0, hr, fmt.Errorf("generated rmidx %d out of range (%d indexes)", s.j, len(names))
@@ -695,7 +789,33 @@ func runCase(e *eng.Eng, cr *hx.Rand, out *hx.Out, env0 mi.Env, script []step, n
 		}
 	}
 	hr.nontriv = len(env.Idx) > 0 && deleted && relocated
+	if behind {
+		out.Stat("hist:update-behind-indexed-prefix")
+	}
 	return tb, env0, hr, nil
+}
+
+// behindPrefix: some prefix index sees the same prefix in both versions of the row although the
+// indexed string changed.
+func behindPrefix(env mi.Env, a, b mi.Row) bool {
+	for _, d := range env.Idx {
+		for j, c := range d.Cols {
+			p := d.PrefixOf(j)
+			if p == 0 || !a[c].IsStr || !b[c].IsStr || a[c].S == b[c].S {
+				continue
+			}
+			cut := func(s string) string {
+				if len(s) > p {
+					return s[:p]
+				}
+				return s
+			}
+			if cut(a[c].S) == cut(b[c].S) {
+				return true
+			}
+		}
+	}
+	return false
 }
 
 // executedIdx: an IndexedAccess call was executed before the statement stopped.
@@ -737,6 +857,10 @@ func corpus() []struct {
 	e1 := mi.Env{NCols: 3, PK: []int{0}, Idx: []mi.IdxDef{{Cols: []int{1}}, {Cols: []int{2, 1}}}, NParts: 2}
 	e2 := mi.Env{NCols: 2, Idx: []mi.IdxDef{{Cols: []int{1}}}, NParts: 3}
 	e3 := mi.Env{NCols: 3, PK: []int{2, 0}, NParts: 2}
+	// prefix indexes: KEY (c1(3)), KEY (c2, c1(2)) over a VARCHAR column
+	e4 := mi.Env{NCols: 4, PK: []int{0}, NParts: 2, Str: []bool{false, true, false, false},
+		Idx: []mi.IdxDef{{Cols: []int{1}, Prefix: []int{3}}, {Cols: []int{2, 1}, Prefix: []int{0, 2}}}}
+	rs := func(pk int64, s string, w, x int64) mi.Row { return mi.Row{m.Int(pk), m.Str(s), m.Int(w), m.Int(x)} }
 	return []struct {
 		env mi.Env
 		h   []step
@@ -751,6 +875,16 @@ func corpus() []struct {
 		// index created on existing data of a composite-key table; unique index refused on duplicates
 		{e3, []step{ins(ri(1, 5, 2), ri(0, 5, 3), ri(7, 4, 2)), {kind: "mkidx", d: mi.IdxDef{Cols: []int{1}, Unique: true}},
 			{kind: "mkidx", d: mi.IdxDef{Cols: []int{1, 0}}}, ops(del(ri(0, 5, 3)), upd(ri(1, 5, 2), ri(1, 5, 9)))}},
+		// rows rewritten under their own key with the indexed string changed only behind the prefix
+		// (UPDATE, REPLACE = Delete + Insert), inside the prefix, to a value shorter than the prefix;
+		// a prefix index created on existing data
+		{e4, []step{ins(rs(1, "abcab", 1, 0), rs(2, "abcb", 1, 0), rs(3, "ab", 2, 0), rs(4, "abcab", 2, 0)),
+			ops(upd(rs(2, "abcb", 1, 0), rs(2, "abcc", 1, 0))),
+			ops(del(rs(1, "abcab", 1, 0)), mi.Op{Kind: "i", R: rs(1, "abcaa", 1, 5)}),
+			ops(upd(rs(3, "ab", 2, 0), rs(3, "abb", 2, 0)), upd(rs(4, "abcab", 2, 0), rs(4, "abca", 2, 0))),
+			{kind: "mkidx", d: mi.IdxDef{Cols: []int{1, 3}, Prefix: []int{1, 0}}},
+			ops(upd(rs(4, "abca", 2, 0), rs(4, "a", 2, 0)), upd(rs(2, "abcc", 1, 0), rs(7, "abcc", 1, 0))),
+			{kind: "rmidx", j: 0}, ops(upd(rs(7, "abcc", 1, 0), rs(7, "abccc", 1, 0)))}},
 	}
 }
 
@@ -758,7 +892,7 @@ func run(a hx.RunArgs) error {
 	logrus.SetLevel(logrus.PanicLevel)
 	out := hx.NewOut(a.OutDir)
 	defer out.Close()
-	out.Rule = "histories of scripted editor statements (real TableEditorIter + tableEditor), TRUNCATE, CREATE [UNIQUE] INDEX on existing data, DROP INDEX on partitioned tables; after each step storage dump vs model and index-driven SQL reads vs scan. Non-trivial: the table has a secondary index and the history deleted/updated rows and re-sorted a non-empty keyed table"
+	out.Rule = "histories of scripted editor statements (real TableEditorIter + tableEditor), TRUNCATE, CREATE [UNIQUE] INDEX on existing data, DROP INDEX on partitioned tables (BIGINT columns; every third table also VARCHAR columns under prefix indexes, rows rewritten under their own key with the string changed behind / inside / below the prefix); after each step storage dump vs model and index-driven SQL reads vs scan. Non-trivial: the table has a secondary index and the history deleted/updated rows and re-sorted a non-empty keyed table"
 	r := hx.NewRand(a.Seed).Fork()
 	e := eng.New("d")
 	emit := func(tb *mi.Table, env mi.Env, hr histResult) {
@@ -783,11 +917,17 @@ func run(a hx.RunArgs) error {
 	}
 	for c := 0; c < cases; c++ {
 		cr := r.Fork()
-		env := mi.GenEnv(cr)
-		if len(env.Idx) == 0 && cr.Chance(2, 3) {
-			env.Idx = []mi.IdxDef{{Cols: []int{cr.Intn(env.NCols)}}}
+		var env mi.Env
+		if c%3 == 1 { // string columns and prefix indexes
+			env = genStrEnv(cr)
+			out.Stat("env:str")
+		} else {
+			env = mi.GenEnv(cr)
+			if len(env.Idx) == 0 && cr.Chance(2, 3) {
+				env.Idx = []mi.IdxDef{{Cols: []int{cr.Intn(env.NCols)}}}
+			}
 		}
-		withReads := c%4 == 0
+		withReads := c%4 == 0 || (env.HasStr() && c%2 == 0)
 		tb, env0, hr, err := runCase(e, cr, out, env, nil, cr.Range(4, 12), withReads)
 		if err != nil {
 			return err
@@ -796,5 +936,8 @@ func run(a hx.RunArgs) error {
 		tb.Drop()
 		out.Stat(fmt.Sprintf("env:pk%d:idx%d:np%d", len(env.PK), len(env.Idx), env.NParts))
 	}
-	return runDDL(a, out, r.Fork())
+	if err := runDDL(a, out, r.Fork()); err != nil {
+		return err
+	}
+	return runPfxSQL(a, out, r.Fork())
 }
